@@ -78,3 +78,120 @@ Proof. vm_compute. repeat split; reflexivity. Qed.
 
 Print Assumptions C17_slash_spelling_empty_root.
 Print Assumptions C17_named_root_identity.
+
+(* ===================================================================================================
+   ADDED (T17): theorems for ALL directory trees, each root style, every record size (Proofs/T17*.v).
+   [node]/[tree]/[wf]: a directory tree with okc component names (non-empty, no slash, not "." / ".."), siblings
+   distinct, header blocks >= 1; [archive_of st t]: the tape a standard tar writer emits (top entry first, a
+   directory before its members) in style "./" (DotSlash), "/" (Slash) or "top/" (Named top);
+   [opened c tape]: a fresh cache, the tape indexed, the root read (Open + Initialize);
+   [expected_entries st t]: every member, under "/" ++ its path (under "top/..." for a named top: the raw model
+   has no base-path layer, see Proofs/T17Counter.v), with its size, mode, owner, time and content.
+   =================================================================================================== *)
+Close Scope string_scope.
+From STFS Require Import C01Str C01Sim C01Ops T17Tree T17Str T17Forest T17Db T17Rebuild T17View T17Main T17Gen T17Insert
+  T17Mknode T17Spell T17Names T17Coexist.
+
+(* A. the rebuild succeeds and the walk of the visible tree shows exactly the members, each under its directory,
+      regular members with the content the writer stored (e_data of [expected_entry]) *)
+Theorem C17_foreign_view : forall c st t, plain c -> 0 < c_rs c -> wf_style st -> wf t ->
+  (depth_forest (t_kids t) <= 16)%nat ->
+  let s := opened c (archive_of st t) in
+  snd (rebuild c (archive_of st t)) = Ok tt /\
+  view_at c s (view_base st) = expected_entries st t.
+Proof. exact T17_foreign_view. Qed.
+
+Theorem C17_foreign_view_dotslash : forall c t, plain c -> 0 < c_rs c -> wf t -> (depth_forest (t_kids t) <= 16)%nat ->
+  view c (opened c (archive_of DotSlash t)) = expected_entries DotSlash t.
+Proof. exact T17_foreign_view_dotslash. Qed.
+
+Theorem C17_foreign_view_slash : forall c t, plain c -> 0 < c_rs c -> wf t -> (depth_forest (t_kids t) <= 16)%nat ->
+  view c (opened c (archive_of Slash t)) = expected_entries Slash t.
+Proof. exact T17_foreign_view_slash. Qed.
+
+(* the rows of the rebuilt index *)
+Theorem C17_foreign_rows : forall c st t, plain c -> wf_style st -> wf t ->
+  exists p, rebuild c (archive_of st t) = (p, Ok tt) /\ rows p = archive_rows c st t /\ root p = [].
+Proof. exact T17_rebuild. Qed.
+
+(* every member is listed under its directory (Readdir of the directory at q = its members, archive order) *)
+Theorem C17_foreign_listing : forall c st t s q ks, wf_style st -> wf t -> is_open c st t s ->
+  lookup q (t_kids t) = Some ks ->
+  snd (inv_list (db s) (shown_path st q) None) = Ok (map (fun k => shdr st (item_of q k)) ks).
+Proof. exact T17_listing. Qed.
+
+(* every regular member reads back byte-identical; Stat of every member *)
+Theorem C17_foreign_read : forall c st t s i, 0 < c_rs c -> wf_style st -> wf t -> is_open c st t s -> In i (items t) ->
+  i_dir i = false -> snd (read_path c s (h_name (shdr st i))) = Ok (i_data i).
+Proof. exact T17_read. Qed.
+
+Theorem C17_foreign_stat : forall c st t s i, wf_style st -> wf t -> is_open c st t s -> In i (items t) ->
+  snd (stat_s s (shown_path st (i_path i)) false) = Ok (shdr st i).
+Proof. exact T17_stat. Qed.
+
+(* the walk below any directory with enough fuel: no depth bound *)
+Theorem C17_foreign_walk : forall c st t s f q ks, 0 < c_rs c -> wf_style st -> wf t -> is_open c st t s ->
+  lookup q (t_kids t) = Some ks -> (depth_forest ks <= f)%nat ->
+  walk f c s (shown_path st q) = map (expected_entry st) (flatten_forest q ks).
+Proof. exact T17_walk_any_depth. Qed.
+
+(* B. "/d/f", "d/f", "./d/f" (styles "./" and "/"): same stored name, same row, same Stat - also after path.Clean *)
+Theorem C17_spellings_sanitize : forall p q n, Foreign p -> q <> [] -> Forall okc q -> In n (spellings q) ->
+  snd (sanitize p n) = join_slash q.
+Proof. exact T17_spellings_sanitize. Qed.
+
+Theorem C17_spellings_resolve : forall c st t s i n, wf_style st -> style_root st = [] -> wf t -> is_open c st t s ->
+  In i (items t) -> i_path i <> [] -> In n (spellings (i_path i)) ->
+  (exists a, In (a, i) (istarts 0 (items t)) /\ snd (get_header (db s) n) = Ok (srow st (c_rs c) (a, i))) /\
+  snd (stat_s s n false) = Ok (shdr st i) /\
+  snd (stat_s s (path_clean n) false) = Ok (shdr st i).
+Proof. exact T17_spellings_resolve. Qed.
+
+Theorem C17_root_spellings_resolve : forall c st t s n, wf_style st -> wf t -> is_open c st t s -> is_root_name n = true ->
+  snd (stat_s s n false) = Ok (shdr st (top_item t)).
+Proof. exact T17_root_spellings_resolve. Qed.
+
+(* named top: the base-path composition Clean(Join(top, spelling)) gives the one stored name *)
+Theorem C17_named_base_path : forall top q n, okc top -> q <> [] -> Forall okc q -> In n (spellings q) ->
+  path_join2 top n = join_slash (top :: q).
+Proof. exact T17_named_base_path. Qed.
+
+(* C. Mkdir / Create of a new name under an existing foreign directory, by any spelling: the call succeeds, the
+      visible tree is that of the tree with the new member added (all old members kept), a rebuild of the new tape
+      gives the rows of the new index; the post-state satisfies the invariant [Live] again (the calls compose:
+      mkdir_live / create_empty_live in Proofs/T17Coexist.v take any [Live] state) *)
+Theorem C17_mkdir_coexists : forall c st t s, plain c -> 0 < c_rs c -> c_readonly c = false -> wf_style st -> wf t ->
+  is_open c st t s -> hbok s ->
+  forall q nm ks0 name0, lookup q (t_kids t) = Some ks0 -> okc nm -> ~ In nm (map node_name ks0) ->
+  FsName st (q ++ [nm]) name0 -> forall perm,
+    let n := new_dir_node c nm s true perm in
+    let t' := tinsert q n t in
+    exists s', step c s (CMkdir name0 perm) = (s', OOk) /\
+      Live c st t' (istarts 0 (items t) ++ [(tape_blocks (tp s), item_of q n)]) s' /\ hbok s' /\
+      ((depth_forest (t_kids t') <= 16)%nat -> view_at c s' (view_base st) = expected_entries st t') /\
+      (exists rb, rebuild c (tp s') = (rb, Ok tt) /\ rows rb = rows (db s')).
+Proof. exact T17_mkdir_coexists. Qed.
+
+Theorem C17_create_coexists : forall c st t s, plain c -> 0 < c_rs c -> c_readonly c = false -> wf_style st -> wf t ->
+  is_open c st t s -> hbok s ->
+  forall q nm ks0 name0, lookup q (t_kids t) = Some ks0 -> okc nm -> ~ In nm (map node_name ks0) ->
+  FsName st (q ++ [nm]) name0 ->
+    let n := new_dir_node c nm s false 438 in
+    let t' := tinsert q n t in
+    exists s', step c s (CCreateFile name0 []) = (s', OOk) /\
+      Live c st t' (istarts 0 (items t) ++ [(tape_blocks (tp s), item_of q n)]) s' /\ hbok s' /\
+      ((depth_forest (t_kids t') <= 16)%nat -> view_at c s' (view_base st) = expected_entries st t') /\
+      (exists rb, rebuild c (tp s') = (rb, Ok tt) /\ rows rb = rows (db s')).
+Proof. exact T17_create_coexists. Qed.
+
+Theorem C17_insert_view : forall st t q n ks0, leaf n -> wf t -> lookup q (t_kids t) = Some ks0 ->
+  exists EA EB, expected_entries st t = EA ++ EB /\
+                expected_entries st (tinsert q n t) = EA ++ expected_entry st (item_of q n) :: EB.
+Proof. exact T17_insert_view. Qed.
+
+Print Assumptions C17_foreign_view.
+Print Assumptions C17_foreign_listing.
+Print Assumptions C17_foreign_read.
+Print Assumptions C17_spellings_resolve.
+Print Assumptions C17_mkdir_coexists.
+Print Assumptions C17_create_coexists.
